@@ -19,8 +19,8 @@ Binding demonstrated during development (scratch worktree, VERIF_REPO=/tmp/wt-ht
 from harness import framework
 from harness import httpr_check as H
 
-QUICK_GEN = {"RLs": "{1, 2, 3, 4, 5, 7, 8, 19}", "HOSTs": "{1, 2, 3, 4, 5, 6}", "FRs": "{1, 2, 3, 4, 5, 9, 11, 12, 16, 17}",
-             "FR2s": "{1, 2, 3, 5}", "XHs": "{1, 3, 5, 6, 7}", "BLANKs": "{1, 2}", "BODYs": "{1, 2, 3, 4, 5, 6, 9, 11, 18}",
+QUICK_GEN = {"RLs": "{1, 2, 3, 4, 5, 7, 8, 19}", "HOSTs": "{1, 2, 3, 4, 5, 6}", "FRs": "{1, 2, 3, 5, 9, 11, 16, 17}",
+             "FR2s": "{1, 3, 5}", "XHs": "{1, 3, 5, 6, 7}", "BLANKs": "{1, 2}", "BODYs": "{1, 2, 3, 4, 5, 6, 9, 11, 18}",
              "TAILs": "{1, 2}", "Dev": 1}
 FULL = {"RLs": "1..20", "HOSTs": "1..14", "FRs": "1..27", "FR2s": "1..7", "XHs": "1..14", "BLANKs": "{1, 2}",
         "BODYs": "1..26", "TAILs": "{1, 2, 3}"}
@@ -44,7 +44,7 @@ def run(ctx):
     H.replay_server(ctx, cases)
     ctx.cov["exhaustive"] = True
     # 3. code -> spec
-    n = ctx.pick(300, 20000)
+    n = ctx.pick(200, 20000)
     jobs = [(i + 1, ctx.seed * 1000003 + i, H.BASE_CFG, "req") for i in range(n)]
     traces = framework.pool_map(H.record_random_server, jobs)
     H.validate(ctx, traces, H.classify_server)
